@@ -1,7 +1,23 @@
 from core import Unit as U
+SORACLES = ["secp256k1_rangeproof_genrand", "secp256k1_pedersen_ecmult", "secp256k1_ge_set_gej_var", "secp256k1_fe_impl_is_square_var",
+            "secp256k1_borromean_sign"]          # genrand: DFCC contract; the others: call-site stubs (assumed_rangeproof.h part B)
+SLOOPS = ["secp256k1_range_proveparams.0:20", "secp256k1_range_proveparams.1:20", "secp256k1_range_proveparams.2:33",
+          "secp256k1_rangeproof_sign_impl.2:33", "secp256k1_rangeproof_sign_impl.3:5", "secp256k1_rangeproof_sign_impl.4:33",
+          "secp256k1_rangeproof_sign_impl.5:129", "secp256k1_clz64_var.0:65"]
+SFUNCS = ["secp256k1_rangeproof_sign_impl", "secp256k1_range_proveparams", "secp256k1_rangeproof_serialize_point", "secp256k1_rangeproof_max_size"]
+CLOSED = "full unwinding to the code-enforced constants (exp <= 18, 32 rings, 128 ring members, clz <= 64); unwinding assertions prove the bounds"
 UNITS = [
     U("C09.proveparams", ["C09"], "harness/C09/proveparams.c", "h_proveparams",
-      functions=["secp256k1_range_proveparams", "secp256k1_clz64_var"], timeout=600, min_obl=20, unwind=66, replay=True, solver="cadical",
+      functions=["secp256k1_range_proveparams", "secp256k1_clz64_var"], timeout=900, min_obl=300, unwind=66, replay=True, solver="cadical",
       closed_by="full unwinding to the code-enforced constants (exp <= 18, rings <= 32, clz <= 64); unwinding assertions prove the bounds",
-      note="pure 64-bit function; all (value, min_value, exp in [-1,18], min_bits in [0,64]) with min_value <= value"),
+      note="pure 64-bit function; all (value, min_value, exp in [-1,18], min_bits in [0,64]) with min_value <= value; product/quotient relations (no 64-bit overflow of v*10^exp, range below 2^64) are NOT in this unit"),
+    U("C09.sign_gates", ["C09", "C08"], "harness/C09/sign_impl.c", "h_sign_gates",
+      replace=["secp256k1_rangeproof_pub_expand", "secp256k1_rangeproof_genrand"], assumed=SORACLES, functions=SFUNCS,
+      timeout=2400, min_obl=300, unwind=34, unwindset=SLOOPS, closed_by=CLOSED, tier="thorough",
+      note="every (value, min_value, exp, min_bits, blind, message length <= 10000, buffer size <= 6000)"),
 ]
+for k in range(19):
+    UNITS.append(U("C09.sign_header_e%d" % k, ["C09"], "harness/C09/sign_impl.c", "h_sign_header", defs=["EXPCASE=%d" % k],
+      replace=["secp256k1_rangeproof_pub_expand", "secp256k1_rangeproof_genrand"], assumed=SORACLES, functions=SFUNCS + ["secp256k1_rangeproof_getheader_impl"],
+      timeout=2400, min_obl=300, unwind=34, unwindset=SLOOPS, closed_by=CLOSED, tier="thorough", solver="cadical",
+      note="header round trip sign_impl -> getheader_impl, case exponent field = %d (the 19 cases cover every header sign_impl can write)" % k))
